@@ -67,6 +67,9 @@ def classify(kf, rec):
     if cl == "heading-in-tight-list-item":
         import c01
         return o.get("list_spacing") == "preserve" and c01.heading_in_tight_item(c.get("parser_input") or doc)
+    if cl == "loose-list-nested-in-tight-item":
+        import c01
+        return o.get("list_spacing") == "preserve" and c01.loose_list_in_tight_item(c.get("parser_input") or doc)
     if cl == "nested-quotes-second-pass":
         return bool(o.get("smartquotes")) and bool(re.search(r"[\u201c\u2018][^\u201d\u2019]*['\"]", o1))
     if cl == "quote-blank-line-trailing-space":
